@@ -19,7 +19,7 @@ EXPLANATION = ("Real _process_actions_for_packet/_action_*/_output_packet/rx_pac
 FUNCTIONS = ["SoftwareSwitchBase._process_actions_for_packet/_action_* (12)/_output_packet/real_send/rx_packet/_rx_port_mod/_set_port_config_bit",
              "pox.lib.packet ethernet/vlan/ipv4/tcp/udp/icmp/arp parse, hdr, pack, checksum"]
 BOUNDS = {}
-OUTSIDE = ["action lists longer than 3", "QinQ, IP options, TCP options", "UDP ports of protocols POX re-parses (67, 68, 53, 5353, 520, 4789)",
+OUTSIDE = ["action lists longer than 3", "QinQ, IP options beyond one 4-byte word, TCP options", "UDP ports of protocols POX re-parses (67, 68, 53, 5353, 520, 4789)",
            "set_nw_tos arguments whose two ECN bits differ from the packet's (OpenFlow 1.0 is ambiguous about them)", "frames with Ethernet padding"]
 ASSUMPTIONS = ["reference checksums use pox.lib.packet.packet_utils.checksum (verified against RFC 1071 in C14)"]
 
@@ -40,13 +40,13 @@ def num(bs):
 
 class Frame:
   """byte-level frame model: list of byte terms + layout facts"""
-  def __init__(self, b, tagged, l3, l4):
-    self.b = list(b); self.tagged = tagged; self.l3 = l3; self.l4 = l4
+  def __init__(self, b, tagged, l3, l4, ihl=5):
+    self.b = list(b); self.tagged = tagged; self.l3 = l3; self.l4 = l4; self.ihl = ihl
   @property
   def l3off(self): return 18 if self.tagged else 14
   @property
-  def l4off(self): return self.l3off + 20
-  def copy(self): return Frame(self.b, self.tagged, self.l3, self.l4)
+  def l4off(self): return self.l3off + 4 * self.ihl
+  def copy(self): return Frame(self.b, self.tagged, self.l3, self.l4, self.ihl)
 
 
 def csum(pu, ctx, data, skip=None):
@@ -58,7 +58,7 @@ def fix_checksums(ctx, pu, f):
   if f.l3 != 'ip': return
   o = f.l3off
   f.b[o + 10:o + 12] = [0, 0]
-  c = csum(pu, ctx, f.b[o:o + 20])
+  c = csum(pu, ctx, f.b[o:o + 4 * f.ihl])      # the header checksum covers the options
   f.b[o + 10:o + 12] = be(c, 2)
   seg = f.b[f.l4off:]
   if f.l4 == 'tcp':
@@ -85,6 +85,9 @@ def make_frame(ctx, pu, kind, tagged, npay):
     ctx.assume((tci & 0x1000) == 0)       # CFI 0
     b += [0x81, 0x00] + be(tci, 2)
   pay = list(ctx.bytes('pay', npay))
+  # '<kind>_opt': the IPv4 header carries one 4-byte option word (IHL 6; e.g. Router Alert on IGMP/RSVP, any bytes here)
+  opts = list(ctx.bytes('ipopt', 4)) if kind.endswith('_opt') else []
+  if opts: kind = kind[:-4]
   if kind in ('tcp', 'udp', 'icmp', 'icmperr', 'icmperr_trunc'):
     l4 = 'icmp' if kind.startswith('icmp') else kind
     if kind in ('icmperr', 'icmperr_trunc'):
@@ -124,10 +127,10 @@ def make_frame(ctx, pu, kind, tagged, npay):
       body[2:4] = be(c, 2)
       seg = body; proto = 1
     tos = ctx.int('tos', 0, 255)
-    ip = [0x45, tos] + be(20 + len(seg), 2) + be(ctx.int('ipid', 0, 0xffff), 2) + [0x40, 0] + [ctx.int('ttl', 0, 255), proto, 0, 0] + \
-         list(ctx.bytes('ipsrc', 4)) + list(ctx.bytes('ipdst', 4))
+    ip = [0x45 + len(opts) // 4, tos] + be(20 + len(opts) + len(seg), 2) + be(ctx.int('ipid', 0, 0xffff), 2) + [0x40, 0] + [ctx.int('ttl', 0, 255), proto, 0, 0] + \
+         list(ctx.bytes('ipsrc', 4)) + list(ctx.bytes('ipdst', 4)) + opts
     b += [0x08, 0x00] + ip + seg
-    f = Frame(b, tagged, 'ip', l4)
+    f = Frame(b, tagged, 'ip', l4, 5 + len(opts) // 4)
   elif kind == 'arp':
     b += [0x08, 0x06] + [0, 1, 8, 0, 6, 4, 0, ctx.int('arpop', 1, 2)] + list(ctx.bytes('arpbody', 20))
     f = Frame(b, tagged, 'arp', None)
@@ -323,6 +326,10 @@ def obligations(tier):
       cases.append(dict(kind=k, tagged=t, codes=[c, A_OUT]))
     cases.append(dict(kind=k, tagged=t, codes=[A_OUT]))
     cases.append(dict(kind=k, tagged=t, codes=[A_ENQ]))
+  # IPv4 options present (IHL 6): the header checksum covers them, the transport header starts after them
+  for k in ('udp_opt', 'tcp_opt') + (('icmp_opt',) if thorough else ()):
+    for c in (A_NWDST, A_TOS, A_TPSRC) + ((A_NWSRC, A_TPDST, A_DLDST, A_VID) if thorough else ()): cases.append(dict(kind=k, tagged=False, codes=[c, A_OUT]))
+    cases.append(dict(kind=k, tagged=False, codes=[A_OUT]))
   # ICMP errors quoting a UDP datagram: the quoted header is payload - no action may touch it (set_tp_* in particular)
   for t in ((False, True) if thorough else (False,)):
     for c in (A_TPSRC, A_TPDST, A_NWSRC, A_NWDST, A_TOS) + ((A_DLSRC, A_VID, A_STRIP) if thorough else ()):
